@@ -6,7 +6,8 @@
 (* 0 refused | 2 panic and pre / post the projections of the real signer.   *)
 (* Every step is compared with Lifecycle!Step (divergences -> LC_REPORT);   *)
 (* the ghost monitor is folded along every sequence and C15a / C15b are     *)
-(* checked as invariants.                                                   *)
+(* checked as invariants.  Replayed sequences may contain the very deep      *)
+(* Bury(k) requests (k up to MAX_CLOSING_DEPTH and beyond, real blocks).     *)
 (***************************************************************************)
 EXTENDS Lifecycle, Json, IOUtils
 
